@@ -294,7 +294,7 @@ var c13dKeys = []string{"s1", "s2", "s3", "l1", "l2", "h1", "c1"}
 func c13dGenerate(r *rand.Rand, nops int, mode c13dMode) []c13dOp {
 	sleeps := 0
 	ops := make([]c13dOp, 0, nops)
-	last := map[string]any{}      // last scalar written per key (bias for CAS old)
+	last := map[string]any{}     // last scalar written per key (bias for CAS old)
 	inList := map[string][]any{} // values recently appended per list key (bias for Remove)
 	for len(ops) < nops {
 		x := r.Intn(100)
